@@ -66,7 +66,8 @@ def gen_value(rng, attr):
         return w if rng.random() < 0.5 else tuple(w)
     if attr == "smoothing":
         op = gen.OPERATORS[int(rng.integers(0, 7))]
-        fcs = np.geomspace(float(rng.uniform(0.2, 1)), float(rng.uniform(5, 20)), int(rng.integers(3, 12)))
+        nfc = int(rng.integers(3, 12)) if rng.random() > 0.04 else int(rng.choice([1001, 2048, 4097]))     # also dense grids
+        fcs = np.geomspace(float(rng.uniform(0.2, 1)), float(rng.uniform(5, 20)), nfc)
         return dict(operator=op, bandwidth=gen.bandwidth(rng, op, 50.0), center_frequencies_in_hz=seq(rng, [float(x) for x in fcs]))
     if attr == "fft_settings":
         k = rng.random()
@@ -86,7 +87,8 @@ def gen_value(rng, attr):
     if attr == "ppth_percentile_for_rotdpp_computation":
         return float(rng.uniform(0, 100))
     if attr == "azimuths_in_degrees":
-        return seq(rng, [float(x) for x in np.sort(rng.uniform(0, 180, int(rng.integers(1, 6))))])
+        naz = int(rng.integers(1, 6)) if rng.random() > 0.03 else int(rng.choice([360, 1100]))           # also dense sweeps
+        return seq(rng, [float(x) for x in np.sort(rng.uniform(0, 180, naz))])
     if attr == "orient_to_degrees_from_north":
         return None if rng.random() < 0.3 else float(rng.uniform(0, 360))
     if attr == "filter_corner_frequencies_in_hz":
@@ -165,6 +167,29 @@ def mutate_in_place(rng, st):
     return f"{a}[{key!r}] (dict entry)"
 
 
+def edit_argument(leaf):
+    """In-place edit of a value the caller owns that keeps it a legal argument (a number changes, types stay)."""
+    if isinstance(leaf, np.ndarray):
+        if leaf.size and leaf.dtype.kind == "f":
+            leaf.flat[0] = leaf.flat[0] * 1.01 + 0.125
+            return True
+        return False
+    if isinstance(leaf, list):
+        for i, v in enumerate(leaf):
+            if isinstance(v, float):
+                leaf[i] = v * 1.01 + 0.125 if v > 1 else min(0.9, v + 0.05)
+                return True
+        return False
+    if isinstance(leaf, dict):
+        if isinstance(leaf.get("n"), int):
+            leaf["n"] = leaf["n"] * 2
+            return True
+        if isinstance(leaf.get("bandwidth"), float) and leaf.get("operator") != "savitzky_and_golay":
+            leaf["bandwidth"] = leaf["bandwidth"] * 1.5
+            return True
+    return False
+
+
 def check_pool(ctx, pool, shadow, step, info):
     bad = []
     for i, st in enumerate(pool):
@@ -229,9 +254,8 @@ def fam_history(ctx, rng):
                 cname_, kw_ = kept_args[int(rng.integers(0, len(kept_args)))]
                 leaves = [v for v in kw_.values() if isinstance(v, (list, dict, np.ndarray))]
                 leaves += [x for v in kw_.values() if isinstance(v, dict) for x in v.values() if isinstance(x, (list, np.ndarray))]
-                if not leaves:
+                if not leaves or not edit_argument(leaves[int(rng.integers(0, len(leaves)))]):
                     continue
-                snap.poke(leaves[int(rng.integers(0, len(leaves)))])
                 saw_mutation = True
                 info["edited_argument_of"] = cname_
             elif op.startswith("construct"):
